@@ -3,7 +3,9 @@
 From Coq Require Import String.
 From Coq Require Import List Ascii ZArith Bool Lia Sorting.Sorted Sorting.Permutation.
 From CGV Require Import Base.PyBase Base.PyVal Base.NxGraph Resolve.Bonding Resolve.GraphOps Resolve.Pipeline
-     Resolve.MapDefs Resolve.Witness Resolve.SortProofs Resolve.VirtualProofs.
+     Resolve.MapDefs Resolve.Witness Resolve.SortProofs Resolve.VirtualProofs Resolve.SortGraphProofs Resolve.DriversInst.
+From CGV Require Import Hydro.SquashDefs.
+From CGV Require Hydro.SquashProofs.
 Import ListNotations.
 Open Scope Z_scope.
 
@@ -38,6 +40,54 @@ Proof. exact block_order. Qed.
 Example C12_sort_example : isort [([1], 5); ([0; 1], 7); ([0], 9); ([0], 2)] = [([0], 2); ([0], 9); ([0; 1], 7); ([1], 5)].
 Proof. reflexivity. Qed.
 
+(** ---- sort_nodes_by_attr on the GRAPH (well-formed graph: distinct keys, symmetric closed adjacency, no self loop) *)
+(** nx.relabel_nodes(copy=True) along a map that is injective on the node keys: the relabelled keys in the OLD node
+    order, every node keeps its attribute dict, adjacency is carried *)
+Theorem C12_relabel_keys : forall m g, wf_graph g -> inj_on (map_get m) (node_keys g) ->
+  node_keys (relabel_copy g m) = map (map_get m) (node_keys g).
+Proof. exact relabel_keys. Qed.
+Theorem C12_relabel_attrs : forall m g, wf_graph g -> inj_on (map_get m) (node_keys g) ->
+  forall k, In k (node_keys g) -> node_attrs (relabel_copy g m) (map_get m k) = node_attrs g k.
+Proof. exact relabel_attrs. Qed.
+Theorem C12_relabel_adjacent : forall m g, wf_graph g -> inj_on (map_get m) (node_keys g) ->
+  forall a b, In a (node_keys g) -> In b (node_keys g) -> has_edge (relabel_copy g m) (map_get m a) (map_get m b) = has_edge g a b.
+Proof. exact relabel_adjacent. Qed.
+(** G.edges reports every adjacency, in exactly one direction *)
+Theorem C12_edges_enumeration : forall g, wf_graph g -> forall y x,
+  existsb (fun e => SquashProofs.eqpair y x (fst (fst e)) (snd (fst e))) (edges_data g) = has_edge g y x.
+Proof. exact edges_data_spec. Qed.
+(** sort_keys at graph level, sort_perm for attributes and edges: the result lives on a permutation image 0..n-1 of the old keys
+    (old node order kept), adjacency and every attribute but the rewritten 'ez_isomer_atoms' are carried along *)
+Theorem C12_sort_graph : forall g h, wf_graph g -> map fst (get_node_attributes g (S "fragid")) = node_keys g ->
+  sort_nodes_by_attr g = Ok h ->
+  exists m, sort_mapping g = Ok m /\
+    inj_on (map_get m) (node_keys g) /\
+    Permutation (map (map_get m) (node_keys g)) (map Z.of_nat (seq 0 (length g))) /\
+    node_keys h = map (map_get m) (node_keys g) /\
+    (forall a b, In a (node_keys g) -> In b (node_keys g) -> has_edge h (map_get m a) (map_get m b) = has_edge g a b) /\
+    (forall k key, In k (node_keys g) -> key <> S "ez_isomer_atoms" -> node_get h (map_get m k) key = node_get g k key).
+Proof. exact sort_graph. Qed.
+(** ref_remap: a pair of node references in 'ez_isomer_atoms' is rewritten by the same permutation (and becomes a list) *)
+Theorem C12_ref_remap : forall g h k a b, wf_graph g -> map fst (get_node_attributes g (S "fragid")) = node_keys g ->
+  sort_nodes_by_attr g = Ok h -> In k (node_keys g) -> In a (node_keys g) -> In b (node_keys g) ->
+  node_get g k (S "ez_isomer_atoms") = Some (VTup [VInt a; VInt b]) ->
+  exists m, sort_mapping g = Ok m /\
+    node_get h (map_get m k) (S "ez_isomer_atoms") = Some (VList [VInt (map_get m a); VInt (map_get m b)]).
+Proof. exact ref_remap. Qed.
+(** non-vacuity: keys 7,3,5 with fragids [1],[0],[0] and a reference pair; sorted keys 3->0, 5->1, 7->2 *)
+Definition sort_witness : graph :=
+  [ {| nk := 7; na := [(S "fragid", VList [VInt 1]); (S "ez_isomer_atoms", VTup [VInt 3; VInt 5])]; nadj := [(3, [])] |};
+    {| nk := 3; na := [(S "fragid", VList [VInt 0])]; nadj := [(7, []); (5, [])] |};
+    {| nk := 5; na := [(S "fragid", VList [VInt 0])]; nadj := [(3, [])] |} ].
+Example C12_sort_graph_nonvacuous :
+  wf_graph sort_witness /\ map fst (get_node_attributes sort_witness (S "fragid")) = node_keys sort_witness /\
+  exists h, sort_nodes_by_attr sort_witness = Ok h /\ node_keys h = [2; 0; 1] /\
+            node_get h 2 (S "ez_isomer_atoms") = Some (VList [VInt 0; VInt 1]).
+Proof.
+  split; [apply SquashProofs.wf_graphb_sound; reflexivity|]. split; [reflexivity|].
+  eexists. split; [vm_compute; reflexivity|]. split; reflexivity.
+Qed.
+
 (** ---- input-only dependence *)
 (** frag_order_irrelevant: the order of the definitions in a fragment block with unique names is immaterial
     for every lookup, hence for the whole resolution step *)
@@ -63,9 +113,33 @@ Proof. vm_compute. reflexivity. Qed.
 Theorem C12_resolve_exhausted : forall st tr, st_counter st = length (st_dicts st) -> resolve st tr = Err EIndex.
 Proof. exact resolve_exhausted. Qed.
 
+(** ---- the drivers: Pipeline.resolve / resolve_iter / resolve_all are instances of the abstract driver machine of C06
+    (Resolve/Drivers.v) with step := Pipeline.resolve_step, so the C06 theorems apply verbatim *)
+Theorem C12_resolve_is_driver_instance : forall trs st, inv trs st ->
+  match Pipeline.resolve st (nth (st_counter st) trs no_transcript),
+        Drivers.resolve tlevel PipelineFull.amol (tstep (st_legacy st)) (abs trs st) with
+  | Ok (st', o), Ok (dst', o') =>
+      dst' = abs trs st' /\ o' = out_abs o /\ inv trs st' /\ st_legacy st' = st_legacy st
+      /\ st_counter st' = Datatypes.S (st_counter st)
+  | Err e, Err e' => e = e'
+  | _, _ => False
+  end.
+Proof. exact resolve_is_instance. Qed.
+Theorem C12_resolve_all_is_driver_instance : forall trs st, inv trs st -> st_counter st = 0%nat ->
+  match Pipeline.resolve_all st trs, Drivers.resolve_all tlevel PipelineFull.amol (tstep (st_legacy st)) (abs trs st) with
+  | Ok (st', o), Ok (dst', o') => dst' = abs trs st' /\ o' = out_abs o
+  | Err e, Err e' => e = e'
+  | _, _ => False
+  end.
+Proof. exact resolve_all_is_instance. Qed.
+
 Print Assumptions C12_sort_keys.
 Print Assumptions C12_sort_sorted.
 Print Assumptions C12_block_contiguous.
 Print Assumptions C12_block_order.
 Print Assumptions C12_step_frag_order.
 Print Assumptions C12_ctor_agree.
+Print Assumptions C12_sort_graph.
+Print Assumptions C12_ref_remap.
+Print Assumptions C12_relabel_adjacent.
+Print Assumptions C12_resolve_all_is_driver_instance.
